@@ -63,7 +63,12 @@ def relevant_facts(facts, seeds, cache, hops=None):
 
 def to_smt2(ob, facts, cache, extra_axioms=True, hops=None):
     seeds = _syms(ob.hyp, cache) | _syms(ob.goal, cache)
-    rel, cur = relevant_facts(facts[: getattr(ob, "stamp", len(facts))], seeds, cache, hops)
+    if getattr(ob.clause, "from_path_condition_only", False):
+        # the clause follows from the statement contracts / lemmas already on the path (part of the hypothesis): no axiom
+        # instance is handed to the solver (dropping facts is always sound; it keeps this query small and stable)
+        rel, cur = [], set(seeds)
+    else:
+        rel, cur = relevant_facts(facts[: getattr(ob, "stamp", len(facts))], seeds, cache, hops)
     s = z3.Solver()
     for f in rel:
         s.add(f)
